@@ -1,6 +1,7 @@
 package main
 
 import (
+	"encoding/json"
 	"bytes"
 	"fmt"
 	"io"
@@ -348,7 +349,7 @@ func (x *Exec) readCSV(st *Step, ev Ev) {
 	}
 	rd := &chunkReader{data: doc, sizes: st.Reads, eofWith: conf.EOFWithData, fault: st.Fault}
 	ev["a"] = Ev{"doc": bytesBS(doc), "conf": conf.tla(), "parse": parseTable(doc, delim), "rt": rt, "reads": intsOrEmpty(st.Reads)}
-	qf := qframe.ReadCSV(rd, conf.readOpts()...)
+	qf := qframe.ReadCSV(rd, x.sharedCsvOpts(conf)...)
 	ev["fired"] = b2i(rd.fired)
 	if rd.fired {
 		ev["a"].(Ev)["parse"] = [][]interface{}{}
@@ -419,4 +420,20 @@ func (x *Exec) readJSON(st *Step, ev Ev) {
 	qf := qframe.ReadJSON(rd, fns...)
 	ev["fired"] = b2i(rd.fired)
 	x.result(ev, qf)
+}
+
+// sharedCsvOpts: within one scenario, equal configurations are handed to ReadCSV as the very same option
+// values (the same maps and slices) - as a caller does who builds his options once and reads several
+// documents with them. What one call does to its arguments must not reach the next.
+func (x *Exec) sharedCsvOpts(conf *CsvConf) []csv.ConfigFunc {
+	if x.optScn != x.scn || x.csvOpts == nil {
+		x.optScn, x.csvOpts, x.enumMaps = x.scn, map[string][]csv.ConfigFunc{}, map[string]map[string][]string{}
+	}
+	b, _ := json.Marshal(conf)
+	if o, ok := x.csvOpts[string(b)]; ok {
+		return o
+	}
+	o := conf.readOpts()
+	x.csvOpts[string(b)] = o
+	return o
 }
